@@ -594,6 +594,55 @@ def registries_are_separate_along_a_path(col):
                               'after other_glommer.register(Node, get=...), %s of %r gives %r, expected %r' % (name, spec, got, want), None)
 
 
+def short_lived_classes_along_paths(col):
+    """values of classes that are created at run time, walked through once and dropped (namedtuple classes, dict / list subclasses made
+    inside a function), followed by values of NEW classes of another access kind: each value is accessed the way its own type says,
+    whatever happened to be at its class's address before (the walk is a function of the value's type, not of its history)"""
+    import gc
+    import collections
+
+    def mk_class(kind, i):
+        if kind == 'namedtuple':
+            return collections.namedtuple('Rec%d' % i, ['x', 'y'])
+        if kind == 'dict':
+            return type('Bag%d' % i, (dict,), {})
+        if kind == 'list':
+            return type('Row%d' % i, (list,), {'__slots__': ()})
+        return type('Node%d' % i, (), {'__init__': lambda self, **kw: self.__dict__.update(kw)})
+
+    def mk_value(kind, cls, i):
+        if kind == 'namedtuple':
+            return cls(('x', i), {'y': i})
+        if kind == 'dict':
+            return cls(x=('x', i), y={'y': i})
+        if kind == 'list':
+            return cls([('x', i), {'y': i}])
+        return cls(x=('x', i), y={'y': i})
+    first_seg = {'namedtuple': '0', 'dict': 'x', 'list': '0', 'object': 'x'}
+    kinds = ['namedtuple', 'object', 'dict', 'object', 'list', 'object', 'namedtuple', 'dict', 'list', 'object']
+    for runner_name, runner in (('glom', G), ('Glommer', Glommer().glom)):
+        for i in range(80):
+            kind = kinds[i % len(kinds)]
+            cls = mk_class(kind, i)
+            v = mk_value(kind, cls, i)
+            seg = first_seg[kind]
+            cases = [('%s.%s' % ('n', seg), ('ok', ('x', i))), (Path('n', seg, 1), ('ok', i)), (Path('n', T[0] if kind in ('namedtuple', 'list') else (T['x'] if kind == 'dict' else T.x), '0'), ('ok', 'x')),
+                     ('n.%s.zz.q' % seg, ('pae', 2))]
+            for spec, want in cases:
+                got = call(runner, {'n': v}, spec)
+                col.case(('short-lived-class', kind, runner_name), True)
+                col.count('valid_paths' if want[0] == 'ok' else 'failing_paths')
+                col.count('walks_through_short_lived_classes')
+                ok = (got.ok and got.value == want[1]) if want[0] == 'ok' else \
+                    ((not got.ok) and isinstance(got.exc, PathAccessError) and got.exc.part_idx == want[1])
+                if not ok:
+                    col.violation('C01/access-of-another-type-used:short-lived-class:' + kind, 'round %d, %s: %r on {n: <instance of a new %s class>} gives %r, '
+                                  'expected %r' % (i, runner_name, spec, kind, got, want), None)
+                    return
+            del v, cls
+            gc.collect()
+
+
 def run(ctx):
     col, rng = ctx.col, ctx.rng
     col.require('valid_paths', 200)
@@ -605,5 +654,6 @@ def run(ctx):
         virtual_types(col)
         dynamic_step_arguments(col, rng)
         registries_are_separate_along_a_path(col)
+        short_lived_classes_along_paths(col)
     for i in range(ctx.n(500, 4000)):
         one_target(col, rng, 12)
